@@ -1,5 +1,8 @@
 #!/usr/bin/env python3
-"""seeded.py <srcdir> <name> [checks...]
+"""seeded.py [--confirm-only | --use-confirmed] [--no-restore] <srcdir> <name> [checks...]
+--confirm-only: only the scratch-worktree confirmation, result in /tmp/wt/confirm_<name>.json (can run in parallel)
+--use-confirmed: skip the confirmation, read that file
+--no-restore: do not re-run the checks on the unchanged tree afterwards (the caller does it once)
 Confirms a seeded change (srcdir has patch.diff, demo_test.go, meta.json) in a scratch
 worktree of /repo's HEAD, then applies it to /repo, runs the given checks (default: the
 property's own), undoes it, and stores everything under /verif/seeded/<name>/."""
@@ -20,13 +23,19 @@ def passing(cwd):
             ok.add(ev["Package"] + "::" + ev["Test"])
     return ok
 def main():
+    flags = [a for a in sys.argv[1:] if a.startswith("--")]
+    sys.argv = [sys.argv[0]] + [a for a in sys.argv[1:] if not a.startswith("--")]
     src, name = sys.argv[1], sys.argv[2]
     meta = json.load(open(os.path.join(src, "meta.json")))
     pid = meta["property"]
     checks = sys.argv[3:] or [pid]
     wt = "/tmp/wt/confirm_" + name
+    cfile = "/tmp/wt/confirm_%s.json" % name
+    if "--use-confirmed" in flags:
+        report = json.load(open(cfile))
+        return apply_and_check(report, src, name, checks, flags)
     sh(["git", "-C", "/repo", "worktree", "remove", "--force", wt])
-    rc, out = sh(["git", "-C", "/repo", "worktree", "add", "-q", wt, "HEAD"])
+    rc, out = sh(["git", "-C", "/repo", "worktree", "add", "-q", "--detach", wt, "HEAD"])
     report = {"property": pid, "name": name, "what": meta.get("what"), "needs": meta.get("needs"), "files": meta.get("files"), "ran": []}
     try:
         base = set(json.load(open("/root/.vp/BASELINE.json"))["stable_pass"])
@@ -53,6 +62,14 @@ def main():
         sh(["git", "-C", "/repo", "worktree", "remove", "--force", wt])
     confirmed = report.get("demo_without_patch") == "pass" and report.get("demo_with_patch") == "FAIL" and not report.get("baseline_tests_broken") and report.get("builds_with_patch")
     report["confirmed"] = confirmed
+    if "--confirm-only" in flags:
+        json.dump(report, open(cfile, "w"), indent=1)
+        print(json.dumps({k: report.get(k) for k in ["name", "confirmed", "demo_without_patch", "demo_with_patch", "baseline_tests_broken"]}))
+        return report
+    return apply_and_check(report, src, name, checks, flags)
+
+def apply_and_check(report, src, name, checks, flags):
+    confirmed = report.get("confirmed")
     if not confirmed:
         print("NOT CONFIRMED", json.dumps(report, indent=1)); return report
     # run the checks against /repo with the change applied
@@ -74,8 +91,9 @@ def main():
     finally:
         sh(["git", "-C", "/repo", "checkout", "--", "."])
     # restore evidence / replays for the unchanged tree
-    for c in checks:
-        sh(["/verif/check", c, "--tier", "quick"], cwd="/verif")
+    if "--no-restore" not in flags:
+        for c in checks:
+            sh(["/verif/check", c, "--tier", "quick"], cwd="/verif")
     report["checks"] = results
     report["caught_by"] = sorted(c for c, r in results.items() if r["exit"] != 0)
     report["ran"].append("git -C /repo apply patch.diff; ./check <id> --tier quick for %s; git -C /repo checkout -- ." % ", ".join(checks))
